@@ -88,22 +88,6 @@ def errName : QErr → String
 
 def sortNats (l : List Nat) : List Nat := (l.toArray.qsort (· < ·)).toList
 
-/-- Is the result of `__findIntermediateNodes(old, new, qi)` possibly dependent on the iteration
-order of the Python set `old`?  Every node reachable from `old` through non-`new` nodes is
-explored exactly once and each of its child edges is followed once, so the number of `traverse`
-calls a node receives does not depend on the order.  If every non-`new` node from which `new` is
-reachable receives one call only, no productive stack is ever pruned by `visited` and the
-result is the same for every order. -/
-def orderSensitive (g : Graph) (old new : List Node) (qi : Bool) : Bool :=
-  let old := dedup old
-  if old.length < 2 || superset old new then false
-  else
-    let succ' := fun i => if new.contains i then [] else succs g qi i
-    let explored := union old ((worklist succ' (g.size + 2) old []).getD [])
-    let inner := explored.filter (fun u => !new.contains u)
-    let calls := fun c => (if old.contains c then 1 else 0) + (inner.map fun u => (succs g qi u).count c).sum
-    inner.any fun c => calls c ≥ 2 && !(traverse g new qi (g.size + 1) c [] ([], [])).2.isEmpty
-
 def handle (g : Graph) (j : Json) : Graph × Json :=
   match getStr j "op" with
   | "graph" =>
@@ -120,10 +104,8 @@ def handle (g : Graph) (j : Json) : Graph × Json :=
     | .ok (nodes, valid) =>
       let run (f : Graph → Bool → Nat → Node → List Str → RState → RState) (qa : Bool) :=
         jTree (f g qa (g.size + 1) g.root [] { out := [], result := nodes, valid := valid }).out
-      let sens := (forwardTrace g steps [g.root]).any fun (old, new, search) =>
-        match search with
-        | some qi => orderSensitive g old new qi
-        | none => false
+      -- since 6706b01 `__findIntermediateNodes` does not depend on the iteration order of `old`
+      let sens := false
       let base := [("nodes", jNats (sortNats (dedup nodes))), ("valid", jNats (sortNats (dedup valid))),
                    ("sensitive", Json.bool sens),
                    ("tree0", run findResultNodes false), ("pkg0", run findResultPackages false)]
